@@ -839,6 +839,11 @@ def csv_to_merchants_content(csv_rules: List[Tuple]) -> str:
 
         match_expr = " and ".join(parts) if parts else "true"
 
+        # A CSV row with neither category nor tags has no effect; the .rules loader
+        # rejects such a rule, which would make the whole migrated file unloadable.
+        if not category and not tags:
+            continue
+
         # Write rule block
         lines.append(f"[{merchant}]")
         lines.append(f"match: {match_expr}")
